@@ -253,6 +253,35 @@ fn check_value_text(ctx: &mut Ctx, t: &[u8], seed: u64) {
             owned_children(ctx, "clone-after-load", &ov.clone(), &d.root, t);
             let lc = lv.clone();
             check_view(ctx, "clone", "LazyValue", t, transcript(&lc), ser(&lc));
+            // overwriting in place (`clone_from`, what `Vec::clone_from` and `clone_from_slice`
+            // do per element): a value that was already read, of every kind, takes over this one
+            // completely; read or unread source
+            for (i, prev) in [r#""old\tdecoded \u00e9 text""#, "\"plain\"", "-1.5e3", "[1,\"\\n\"]", "null"].iter().enumerate() {
+                let Ok(mut dst) = sonic_rs::from_str::<LazyValue>(prev) else { continue };
+                let _ = (dst.as_str().map(|s| s.len()), dst.as_f64(), dst.is_null());
+                if i % 2 == 0 {
+                    let fresh: LazyValue = sonic_rs::from_slice(&ex).unwrap_or_default();
+                    dst.clone_from(&fresh);
+                } else {
+                    dst.clone_from(&lv);
+                }
+                check_view(ctx, "clone_from", "LazyValue", t, transcript(&dst), ser(&dst));
+                let Ok(mut od) = sonic_rs::from_str::<OwnedLazyValue>(prev) else { continue };
+                let _ = (od.as_str().map(|s| s.len()), od.as_f64(), od.is_null());
+                if i % 2 == 0 {
+                    let fresh: OwnedLazyValue = sonic_rs::from_slice(&ex).unwrap_or_default();
+                    od.clone_from(&fresh);
+                } else {
+                    od.clone_from(&ov);
+                }
+                check_view(ctx, "clone_from", "OwnedLazyValue", t, transcript(&od), sero(&od));
+            }
+            let mut many: Vec<LazyValue> = vec![sonic_rs::from_str(r#""a\nb""#).unwrap_or_default(), LazyValue::default()];
+            let _ = many[0].as_str();
+            many.clone_from(&vec![lv.clone(), lv.clone(), lv.clone()]);
+            for m in &many {
+                check_view(ctx, "Vec::clone_from", "LazyValue", t, transcript(m), ser(m));
+            }
         }
         Err(e) => ctx.fail("reject-valid:from_str<LazyValue>", e.to_string()),
     }
@@ -295,6 +324,25 @@ fn check_value_text(ctx: &mut Ctx, t: &[u8], seed: u64) {
             match it.skip(1).next() {
                 Some(Ok(lv)) => check_view(ctx, "into_array_iter", "LazyValue", t, transcript(&lv), ser(&lv)),
                 _ => ctx.fail("iter-missing", "into_array_iter did not yield the member".into()),
+            }
+        }
+    }
+    // members of an iterator over a lazy value that owns its text (read by serde, or found in a
+    // FastStr / Bytes document) are views of that text, not of the iterator: they are looked at
+    // after the iterator is gone
+    if let Ok(ws) = std::str::from_utf8(&wex) {
+        let wfs = faststr::FastStr::new(ws);
+        let single = format!("{{\"m\":{}}}", String::from_utf8_lossy(t));
+        let kept: Vec<(&str, Option<LazyValue>)> = vec![
+            ("from_str.into_object_iter.into_array_iter:iterator-dropped", sonic_rs::from_str::<LazyValue>(ws).ok().and_then(|lv| lv.into_object_iter()).and_then(|mut it| it.next()).and_then(|x| x.ok()).and_then(|(_, a)| a.into_array_iter()).and_then(|it| it.collect::<sonic_rs::Result<Vec<LazyValue>>>().ok()).and_then(|mut v| if v.len() > 1 { Some(v.swap_remove(1)) } else { None })),
+            ("get(&FastStr).into_array_iter:iterator-dropped", sonic_rs::get(&wfs, &["k"]).ok().and_then(|a| a.into_array_iter()).and_then(|it| it.collect::<sonic_rs::Result<Vec<LazyValue>>>().ok()).and_then(|mut v| if v.len() > 1 { Some(v.swap_remove(1)) } else { None })),
+            ("Vec<LazyValue>.into_array_iter:iterator-dropped", sonic_rs::from_str::<Vec<LazyValue>>(&ws[5..ws.len() - 1]).ok().map(|v| v.into_iter().nth(1)).unwrap_or(None)),
+            ("from_slice.into_object_iter:iterator-dropped", sonic_rs::from_slice::<LazyValue>(single.as_bytes()).ok().and_then(|lv| lv.into_object_iter()).and_then(|it| it.collect::<sonic_rs::Result<Vec<_>>>().ok()).and_then(|mut v| v.pop()).map(|(_, m)| m)),
+        ];
+        for (name, lv) in &kept {
+            match lv {
+                Some(lv) => check_view(ctx, name, "LazyValue", t, transcript(lv), ser(lv)),
+                None => ctx.fail("iter-missing", format!("{} did not yield the member", name)),
             }
         }
     }
